@@ -249,3 +249,35 @@ theorem step_alias (r : Rel) (s : St V) {op op' : Op V} {sg : Sign}
     | mk a e => cases e <;> rfl
 
 end RtcVerif.C13
+
+namespace RtcVerif.C13
+
+variable {V : Type} [NegVal V]
+
+/-- the relation with all signs forgotten -/
+def Rel.unsign (r : Rel) : Rel := fun n => ((r n).1, Sign.pos)
+
+theorem csigned_unsign (r : Rel) (k : VName) : csigned r.unsign false k = csigned r false k := rfl
+
+theorem update_unsign (r : Rel) (l : List (VName × V)) :
+    ∀ a : ADict V, a.signedValues = false → a.update r.unsign l = a.update r l := by
+  induction l with
+  | nil => intro a _; rfl
+  | cons p rest ih =>
+    intro a h
+    obtain ⟨k, v⟩ := p
+    have e : a.set r.unsign k v = a.set r k v := by simp [ADict.set, h, csigned_unsign]
+    simp only [ADict.update, e]
+    cases hs : a.set r k v with
+    | ok a' => exact ih a' ((set_flag r a a' k v hs).trans h)
+    | error e => rfl
+
+/-- an unsigned dictionary does not see the signs of the relation at all -/
+theorem step_unsign (r : Rel) (s : St V) (op : Op V) (h : s.cur.signedValues = false) :
+    step r.unsign s op = step r s op := by
+  cases op with
+  | update kvs => simp only [step, update_unsign r kvs s.cur h]
+  | _ => simp [step, ADict.set, ADict.get, ADict.del, ADict.contains, ADict.setdefault, ADict.getD, h,
+      csigned_unsign]
+
+end RtcVerif.C13
